@@ -10,7 +10,7 @@
    EVERY byte list, every resume state and every variant record — no well-formedness of
    the input is assumed unless stated. *)
 From MptV Require Import Base.Mem Cobs.CobsModel Cobs.DecModel Cobs.EncProofs Cobs.EncTheorems Cobs.DecProofs Cobs.DecCall
-  Cobs.DecComplete Cobs.DecHistory Cobs.TextModel Cobs.TextHistory.
+  Cobs.DecComplete Cobs.DecHistory Cobs.DecLive Cobs.TextModel Cobs.TextHistory.
 
 (* SAFETY, one call, arbitrary bytes and (well-formed) resume state: the region keeps its
    size; nothing before the state's decoded data is written; if anything was written, the
@@ -173,6 +173,31 @@ Theorem C03_command_history_delivers :
 Proof. exact cmd_history_delivers. Qed.
 
 (* ---- non-vacuity ---- *)
+(* NO FALSE REFUSAL, any state, any gap: when the unread bytes complete (or, between messages,
+   start) a frame the reference decoder accepts -- [slive]; every accepted frame qualifies by
+   [C03_accepted_frame_is_live] -- a call in ANY state the call invariant allows (between messages,
+   inside a block, behind the data part with some zeros written) and with ANY gap either delivers
+   the message, consuming exactly up to the delimiter, or reports MissingBuffer in a state that is
+   live again with the delimiter still ahead, and the latter only when the gap was shorter than
+   (bytes up to the delimiter) + 17.  It never asks for more input and never reports a decoding
+   error on such data *)
+Theorem C03_accepted_frame_is_live :
+  forall v body m tl, sdec v body = Some m -> wfd0 v (body ++ 0%N :: tl) = true.
+Proof. exact sdec_wfd0. Qed.
+
+Theorem C03_call_never_refuses_complete_frame :
+  forall v F st buf frags res, cinv v F st buf -> slive v st buf ->
+    let '(r, st', buf') := dec_call_res v st buf frags res false in live_result v st buf r st' buf'.
+Proof. exact dec_call_live. Qed.
+
+(* non-vacuity: a ZPE frame in a buffer without any gap: MissingBuffer, live again *)
+Example C03_example_live :
+  let buf := [225;65;225;66;1;0]%N in
+  cinv v_zpe [] (dinit 0) buf /\ slive v_zpe (dinit 0) buf /\
+  let '(r, st', buf') := dec_call_res v_zpe (dinit 0) buf [6] [] false in
+  r = DErr MissingBuffer /\ dcurr st' = 2 /\ dcode st' = 225.
+Proof. split; [apply cinv_init; cbn; lia|]. vm_compute. auto. Qed.
+
 Example C03_hon_start : forall v c, 1 <= c -> hon v [nb c] [] c 0.
 Proof. exact hon_start. Qed.
 
@@ -221,3 +246,5 @@ Print Assumptions C03_call_delivers_accepted_frame.
 Print Assumptions C03_command_call_honest.
 Print Assumptions C03_command_history_delivers.
 Print Assumptions C03_spaced_reader_delivers_every_frame.
+Print Assumptions C03_accepted_frame_is_live.
+Print Assumptions C03_call_never_refuses_complete_frame.
